@@ -423,8 +423,10 @@ def isolate_failure(binary, shard, args=(), timeout=60, env=None, limit=400):
 # ----------------------------------------------------------------------------- known findings
 def load_known():
     res = []
-    p = os.path.join(VERIF, 'known_findings.txt')
-    if os.path.exists(p):
+    # VERIF_KNOWN: an additional file in the same format, used only while triaging (never by a registered command)
+    for p in (os.path.join(VERIF, 'known_findings.txt'), os.environ.get('VERIF_KNOWN', '')):
+        if not p or not os.path.exists(p):
+            continue
         for line in read(p).splitlines():
             line = line.strip()
             m = re.match(r'finding:\s+property=(\S+)\s+key=(\S+)\s+(.*)', line)
